@@ -195,6 +195,28 @@ def mk_dur(unit, x):
     return ("dur", unit, x)
 
 
+def m_duration_new(ev, a, t, d):
+    """TimeDelta::new(secs, nanos) for the one split this code base could mean: secs = t div 1000 and nanos = (t mod 1000) *
+    1_000_000 of the same unsigned millisecond count t. Then nanos < 10^9 (so the result is Some) and the duration is t ms.
+    Any other argument pair is left undecided."""
+    if len(a) != 2:
+        return None
+    secs, nanos = a[0], sym.norm_arith(a[1])
+    while secs[0] == "cast" and len(secs) == 4 and sym._uwiden(secs[2], secs[3]):
+        secs = secs[1]
+    if not (secs[0] == "bin" and secs[1] == "Div" and sym.is_c(secs[3]) and secs[3][1] == 1000):
+        raise sym.Undecided("TimeDelta::new with arguments that are not a millisecond count split into seconds and nanoseconds")
+    tms, ty = secs[2], secs[4]
+    while tms[0] == "cast" and len(tms) == 4 and sym._uwiden(tms[2], tms[3]):
+        tms, ty = tms[1], tms[2]           # the division was done after widening: same quotient
+    if ty not in ("u16", "u32", "u64"):
+        raise sym.Undecided("TimeDelta::new with arguments that are not a millisecond count split into seconds and nanoseconds")
+    want = sym.norm_arith(sym.binop("Mul", sym.binop("Rem", tms, sym.C(1000, ty), ty), sym.C(1_000_000, ty), ty))
+    if nanos != want:
+        raise sym.Undecided("TimeDelta::new with arguments that are not a millisecond count split into seconds and nanoseconds")
+    return some(mk_dur(1, sym.cast(tms, ty, "i64")))
+
+
 def m_pred_opt(ev, a, t, d):
     dt = a[0]
     if dt[0] == "date" and (dt[1] is None or small_unsigned(dt[1])):
@@ -249,6 +271,7 @@ MODELS = {
     "chrono::time_delta::TimeDelta::minutes": m_duration(60_000),
     "chrono::time_delta::TimeDelta::seconds": m_duration(1000),
     "chrono::time_delta::TimeDelta::milliseconds": m_duration(1),
+    "chrono::time_delta::TimeDelta::new": m_duration_new,
     "<chrono::naive::date::NaiveDate as core::ops::arith::Add<chrono::time_delta::TimeDelta>>::add": m_date_add,
     "chrono::naive::time::NaiveTime::from_num_seconds_from_midnight_opt": m_time_from_secs,
     "<chrono::naive::time::NaiveTime as core::ops::arith::Add<chrono::time_delta::TimeDelta>>::add": m_time_add,
